@@ -80,6 +80,14 @@ add("C25", "smmc", "model_checking", "exhaustive enumeration of scan/apply inter
     "Part 1: every subset of 0xFF-boundary keys (64 quick / 256 thorough) x 8 prefixes on both engines: result == reference filter and revision == applied index. Part 2: 3 base states x 7 chunks x 3 prefixes x every yield point between the steps in which apply publishes data and applied index and in which scan reads entries and revision (File: after WAL append / after the in-memory update / after the index update; RocksDB: after the batch write, and inside scan after the iteration): the other activity is started on its own thread exactly there (if a lock of the outer activity blocks it, it completes afterwards), so every interleaving of one scan and one apply at these points is executed; oracle: entries == reference state at the revision the scan reports. The RocksDB empty-prefix defect (pinned by a unit test) is a recorded known finding.",
     "Interleavings at the declared yield points only; RocksDB internals trusted; one scanner and one applier.", "DESIGN.md section 4 C25")
 
+E1T = " Timed mode: virtual time passes only through Tick (jump to the earliest timer deadline of a live node; that node's tick fires), election timeouts 10 s + 2 s x node position, heartbeat 3 s, lease 5 s, request deadline 7 s; the lease clock (now_ms) and tokio's paused clock are one harness-owned clock."
+E1T_NOTE = E1_NOTE + " Timed runs assume perfect shared clocks and exact (non-random) election timeouts per node; paths in which a voter's own timer is due at the instant it is asked for a vote are not representable and are counted, not judged."
+def e1t(pid, text):
+    add(pid, "clustermc", "model_checking", E1_TECH + ", timed variant", text + E1T, E1T_NOTE, f"DESIGN.md section 4 {pid}")
+e1t("C10", "Client histories on key a (puts with unique values, linearizable reads) against a 3-voter cluster: from an established leader with one process crash/restart at any point; with node 3 cut off from the leader until it starts an election; with a lagging (gated) state machine on the leader; and an acknowledged write followed by a graceful stop of the whole cluster in every order, restart and re-election. Oracle: brute-force linearizability (Wing-Gong search) of the recorded invoke/response history; writes with unknown outcome may or may not have taken effect. The known defect (votes granted while a leader's lease runs) is recorded with a guard on that root cause.")
+e1t("C11", "Same timed exploration with reads under the linearizable policy: established leader; node 3 cut off and elected with node 2's vote while the old leader's lease is fresh (leader isolation longer than the lease is reached through further ticks); leader with a gated state machine (apply lag). Oracle: linearizability of the client history. Known defect recorded as for C10.")
+e1t("C12", "Same timed exploration with reads under the lease policy against every node that believes it is leader. Oracle, at every lease read answered from local state: the answering node is in the leader role and no other node has already become leader of a later term (the lease window must end before any other node can win an election). The configuration clause (lease shorter than the minimum election timeout) is decided by C34's grid. Known defect recorded: followers grant votes while still following a live leader, so a new leader is elected inside the old leader's lease window.")
+
 NOT_BUILT = "check not built yet (work in progress, DESIGN.md section 10 build order); no verdict is claimed for this property"
 
 manifest = {
